@@ -210,6 +210,36 @@ Section Generic.
           -- destruct (p_ttl P a) as [ttl|]; apply Hold; auto. intros; apply src_push_fill; assumption.
   Qed.
 
+  Lemma forallb_weaken {X} (f g : X -> bool) l :
+    (forall x, f x = true -> g x = true) -> forallb f l = true -> forallb g l = true.
+  Proof.
+    intros H. induction l as [|x l IH]; simpl; [reflexivity|].
+    intros Hf. apply Bool.andb_true_iff in Hf. destruct Hf as [H1 H2]. rewrite (H _ H1), (IH H2). reflexivity.
+  Qed.
+
+  (* a request that was not refused for unavailability was decided by the host's own cluster:
+     every review call received by it, or an answer of it in the checker's history *)
+  Lemma request_decided (s : state) st ck h c k cb now st' r calls :
+    inv_k st ck ->
+    request cfg K orc s st (Some h) k cb now = (st', r, calls) ->
+    cluster_of cfg h = Some c ->
+    (forall u, r <> k_unavail K u) ->
+    decided_by P ck c k now r calls = true.
+  Proof.
+    intros Hi Hreq Hc Hnu.
+    destruct (request_ok s st ck (Some h) k cb now st' r calls Hi Hreq) as [ck' [Hck _]].
+    rewrite can_ask_route in Hck. unfold request in Hreq.
+    destruct (route cfg s (Some h)) as [[h' c']|u] eqn:Er.
+    2:{ inversion Hreq; subst. exfalso. eapply Hnu. reflexivity. }
+    destruct (route_inl _ _ _ _ _ Er) as [Eh [Hc' _]]. inversion Eh; subst h'.
+    rewrite Hc in Hc'. inversion Hc'; subst c'.
+    unfold check_req in Hck. destruct (consume orc (c_cnt ck) calls None) as [cnt' last].
+    injection Hck as Hk0 Hown Hfresh Hcached.
+    unfold decided_by. apply Bool.andb_true_iff. split.
+    - eapply forallb_weaken; [|exact Hown]. intros cl Hcl. apply Bool.andb_true_iff in Hcl. tauto.
+    - destruct calls as [|cl calls]; simpl; [|reflexivity]. simpl in Hcached. exact Hcached.
+  Qed.
+
   Lemma inv_restart st ck c : inv_k st ck -> inv_k (drop_cluster cfg c st) (restart_k c ck).
   Proof.
     intros [Hcnt Hcache]. split; simpl; [assumption|].
@@ -363,38 +393,119 @@ Proof.
   - eexists. split; [reflexivity|]. split; [|split]; simpl; [rewrite He; reflexivity|assumption|assumption].
 Qed.
 
+Definition is_request_op (o : op) : bool :=
+  match o with OAuthn _ _ _ | OAuthz _ _ _ => true | _ => false end.
+
+Lemma step_eps_request cfg torc sorc s o :
+  is_request_op o = true -> eps (fst (step cfg torc sorc s o)) = eps s.
+Proof.
+  destruct o; simpl; try discriminate; intros _.
+  - destruct (request cfg (tkind cfg) torc s (ts s) ho (tkey tok) true now) as [[st' r] calls]. reflexivity.
+  - destruct (request cfg (skind cfg) sorc s (ss s) ho (sar_key a) (should_cache a) now) as [[st' r] calls]. reflexivity.
+Qed.
+
+(* the token authentication of a chain request that passes was decided by the host's cluster *)
+Lemma authn_decided cfg torc sorc s k h c tok now r calls u :
+  inv cfg s k -> cluster_of cfg h = Some c ->
+  snd (step cfg torc sorc s (OAuthn (Some h) tok now)) = OutT r calls ->
+  authn_passes (OutT r calls) = Some u ->
+  decided_by (tspec cfg) (c_t k) c [tok] now r calls = true.
+Proof.
+  intros [He [Ht Hs]] Hc Hst Hp. simpl in Hst.
+  destruct (request cfg (tkind cfg) torc s (ts s) (Some h) (tkey tok) true now) as [[st' r'] calls'] eqn:E.
+  simpl in Hst. inversion Hst; subst r' calls'.
+  eapply (request_decided cfg (tkind cfg) (tspec cfg) torc t_res_expected tresult_eqb_refl (t_neg cfg)
+            (t_ttl_ok cfg) (t_valid_le cfg)); eauto.
+  intros u0 ->. simpl in Hp. discriminate.
+Qed.
+
+Lemma authz_decided cfg torc sorc s k h c a now r calls :
+  inv cfg s k -> cluster_of cfg h = Some c ->
+  snd (step cfg torc sorc s (OAuthz (Some h) a now)) = OutS r calls ->
+  authz_passes (OutS r calls) = true ->
+  decided_by (sspec cfg) (c_s k) c (sar_key a) now r calls = true.
+Proof.
+  intros [He [Ht Hs]] Hc Hst Hp. simpl in Hst.
+  destruct (request cfg (skind cfg) sorc s (ss s) (Some h) (sar_key a) (should_cache a) now) as [[st' r'] calls'] eqn:E.
+  simpl in Hst. inversion Hst; subst r' calls'.
+  eapply (request_decided cfg (skind cfg) (sspec cfg) sorc s_res_expected sresult_eqb_refl (s_neg cfg)
+            (s_ttl_ok cfg) (s_valid_le cfg)); eauto.
+  intros u0 ->. simpl in Hp. discriminate.
+Qed.
+
+Lemma step_authn_out cfg torc sorc s ho tok now :
+  exists r calls, snd (step cfg torc sorc s (OAuthn ho tok now)) = OutT r calls.
+Proof.
+  simpl. destruct (request cfg (tkind cfg) torc s (ts s) ho (tkey tok) true now) as [[st' r] calls]. simpl. eauto.
+Qed.
+Lemma step_authz_out cfg torc sorc s ho a now :
+  exists r calls, snd (step cfg torc sorc s (OAuthz ho a now)) = OutS r calls.
+Proof.
+  simpl. destruct (request cfg (skind cfg) sorc s (ss s) ho (sar_key a) (should_cache a) now) as [[st' r] calls]. simpl. eauto.
+Qed.
+
+Lemma authn_passes_user r calls u : authn_passes (OutT r calls) = Some u -> t_user r = Some u.
+Proof. simpl. destruct (t_ok r && eclass_eqb (t_err r) ENone)%bool; [tauto|discriminate]. Qed.
+
 Lemma stepx_ok cfg torc sorc s k o :
   inv cfg s k ->
-  exists k', check_stepx cfg torc sorc k o (snd (stepx cfg torc sorc s o)) = (k', all_ok)
+  exists k', check_stepx cfg torc sorc k o (snd (stepx cfg torc sorc s o)) = (k', all_okx)
              /\ inv cfg (fst (stepx cfg torc sorc s o)) k'.
 Proof.
-  intros Hi. destruct o as [a|a b]; simpl.
-  - destruct (step_ok cfg torc sorc s k a Hi) as [k' [Hk Hi']].
-    destruct (step cfg torc sorc s a) as [s' x]. simpl in *. eauto.
-  - destruct (step_ok cfg torc sorc s k a Hi) as [k1 [Hk1 Hi1]].
+  intros Hi. destruct o as [a|a b|h tok imp now].
+  - simpl. destruct (step_ok cfg torc sorc s k a Hi) as [k' [Hk Hi']].
+    destruct (step cfg torc sorc s a) as [s' x]. simpl in *. rewrite Hk. eauto.
+  - simpl. destruct (step_ok cfg torc sorc s k a Hi) as [k1 [Hk1 Hi1]].
     destruct (step cfg torc sorc s a) as [s1 x]. simpl in *.
     destruct (step_ok cfg torc sorc s1 k1 b Hi1) as [k2 [Hk2 Hi2]].
     destruct (step cfg torc sorc s1 b) as [s2 y]. simpl in *.
     rewrite Hk1, Hk2. simpl. eauto.
+  - cbn [stepx]. destruct (cluster_of cfg h) as [c|] eqn:Ec; [|simpl; eauto].
+    destruct (step_ok cfg torc sorc s k (OAuthn (Some h) tok now) Hi) as [k1 [Hk1 Hi1]].
+    destruct (step_authn_out cfg torc sorc s (Some h) tok now) as [r [calls Hout]].
+    pose proof (authn_decided cfg torc sorc s k h c tok now r calls) as Hdt.
+    destruct (step cfg torc sorc s (OAuthn (Some h) tok now)) as [s1 xt] eqn:Es1.
+    cbn [fst snd] in *. subst xt.
+    destruct (authn_passes (OutT r calls)) as [u|] eqn:Ep.
+    2:{ cbn [fst snd check_stepx]. rewrite Hk1. eauto. }
+    specialize (Hdt u Hi Ec eq_refl eq_refl).
+    destruct imp as [target|].
+    2:{ cbn [fst snd check_stepx]. rewrite Hk1, Hdt. eauto. }
+    destruct (step_ok cfg torc sorc s1 k1 (OAuthz (Some h) (imp_attrs u target) now) Hi1) as [k2 [Hk2 Hi2]].
+    destruct (step_authz_out cfg torc sorc s1 (Some h) (imp_attrs u target) now) as [r2 [calls2 Hout2]].
+    pose proof (authz_decided cfg torc sorc s1 k1 h c (imp_attrs u target) now r2 calls2 Hi1 Ec) as Hdz.
+    destruct (step cfg torc sorc s1 (OAuthz (Some h) (imp_attrs u target) now)) as [s2 xz] eqn:Es2.
+    cbn [fst snd] in *. subst xz.
+    cbn [check_stepx]. rewrite Hk1. rewrite (authn_passes_user _ _ _ Ep). rewrite Hk2.
+    destruct (authz_passes (OutS r2 calls2)) eqn:Ez.
+    + rewrite Hdt, (Hdz eq_refl eq_refl). eauto.
+    + eauto.
 Qed.
 
+Lemma and_clx_ok c : and_clx all_okx c = c.
+Proof. destruct c as [[[[a b] c] d] e]. reflexivity. Qed.
+
 Lemma check_run cfg torc sorc : forall ops s k,
-  inv cfg s k -> check cfg torc sorc k (runx cfg torc sorc s ops) = all_ok.
+  inv cfg s k -> check cfg torc sorc k (runx cfg torc sorc s ops) = all_okx.
 Proof.
   induction ops as [|o ops IH]; intros s k Hi; simpl; [reflexivity|].
   destruct (stepx_ok cfg torc sorc s k o Hi) as [k' [Hk Hi']].
   destruct (stepx cfg torc sorc s o) as [s' x] eqn:Es. simpl in *.
-  rewrite Hk, and_cl_ok. apply IH. assumption.
+  rewrite Hk, and_clx_ok. apply IH. assumption.
 Qed.
 
 Theorem history_ok cfg torc sorc ops :
-  spec_ok cfg torc sorc (runx cfg torc sorc (init cfg) ops) = all_ok.
+  spec_ok cfg torc sorc (runx cfg torc sorc (init cfg) ops) = all_okx.
 Proof. apply check_run. apply inv_start. Qed.
 
 Theorem provenance_ok cfg torc sorc ops :
-  let '(_, _, fresh, cached) := spec_ok cfg torc sorc (runx cfg torc sorc (init cfg) ops) in
+  let '((_, _, fresh, cached), _) := spec_ok cfg torc sorc (runx cfg torc sorc (init cfg) ops) in
   fresh = true /\ cached = true.
 Proof. rewrite history_ok. split; reflexivity. Qed.
+
+Theorem dispatch_ok cfg torc sorc ops :
+  snd (spec_ok cfg torc sorc (runx cfg torc sorc (init cfg) ops)) = true.
+Proof. rewrite history_ok. reflexivity. Qed.
 
 (* ---------- step-level statements ---------- *)
 Definition same_state (s' s : state) : Prop := eps s' = eps s /\ ts s' = ts s /\ ss s' = ss s.
@@ -677,4 +788,30 @@ Proof.
     destruct (request cfg (skind cfg) sorc s st2 ho1 (sar_key a1) (should_cache a1) now1) as [[st21 r21] c21].
     simpl in *. destruct H as [H1 [H2 [H3 [H4 H5]]]]. subst.
     repeat split; try reflexivity; apply H5.
+Qed.
+
+(* ---------- a chain request is dispatched to the cluster that reviewed it ---------- *)
+Theorem chain_dispatch cfg torc sorc s h tok imp now t z d :
+  snd (stepx cfg torc sorc s (Chain h tok imp now)) = RC t z (Some d) ->
+  cluster_of cfg h = Some d /\
+  (forall x cl, (t = Some x \/ z = Some x) -> In cl (out_calls x) -> fst cl = d /\ snd cl = true).
+Proof.
+  cbn [stepx]. destruct (cluster_of cfg h) as [c|] eqn:Ec; [|simpl; intros H; discriminate H].
+  pose proof (own_cluster cfg torc sorc s (OAuthn (Some h) tok now)) as Ho1.
+  destruct (step cfg torc sorc s (OAuthn (Some h) tok now)) as [s1 xt] eqn:Es1.
+  destruct (authn_passes xt) as [u|]; [|simpl; intros H; discriminate H].
+  destruct imp as [target|].
+  - pose proof (own_cluster cfg torc sorc s1 (OAuthz (Some h) (imp_attrs u target) now)) as Ho2.
+    destruct (step cfg torc sorc s1 (OAuthz (Some h) (imp_attrs u target) now)) as [s2 xz] eqn:Es2.
+    simpl. destruct (authz_passes xz); [|intros H; discriminate H].
+    intros H. inversion H; subst. split; [reflexivity|].
+    intros x cl [E|E] Hin; inversion E; subst x.
+    + destruct (Ho1 cl Hin) as [h' [E1 [E2 [E3 _]]]]. simpl in E1. inversion E1; subst h'.
+      rewrite Ec in E2. inversion E2. auto.
+    + destruct (Ho2 cl Hin) as [h' [E1 [E2 [E3 _]]]]. simpl in E1. inversion E1; subst h'.
+      rewrite Ec in E2. inversion E2. auto.
+  - simpl. intros H. inversion H; subst. split; [reflexivity|].
+    intros x cl [E|E] Hin; inversion E; subst x.
+    destruct (Ho1 cl Hin) as [h' [E1 [E2 [E3 _]]]]. simpl in E1. inversion E1; subst h'.
+    rewrite Ec in E2. inversion E2. auto.
 Qed.
